@@ -1,5 +1,6 @@
 // C04 — Rollup writes the right aggregate into the right coarse slot, once.
 //
+// Repeated triggers under a running job (directed gate schedule and unshaped storm): retrigger.go.
 // Parent: builds the list of histories for (seed, tier), runs them in child processes (one real tsdb engine per
 // history; lindb keeps its store manager and storage config in process-wide singletons), merges the children's
 // observations and writes the evidence.
@@ -51,13 +52,17 @@ func main() {
 		"more flushes + rollup, close/reopen + rollup, source compaction before/after/between rollups, the store tick (file thresholds), target family compaction; one kind through real ingestion " +
 		"(WriteRows->Flush). After every step all cells of all target stores are read through the query-path reader and compared with the calendar re-bucketed reference; marks/references are " +
 		"checked against the data. Crash kind: an image of the engine directory after every file-system operation of one rollup is recovered, judged, rolled up to quiescence and judged again. " +
+		"Retrigger kind: a rollup job is parked inside its target work (kv/table file seam), 1-3 further triggers (Store.ForceRollup / family.rollup) arrive from other goroutines; each is refused by the running job or - " +
+		"when it reads the family's live rollup files outside the running job - held at a gate around the family version until the job's goroutine is gone, then continues (optionally after one more flush); " +
+		"storm kind: 2-6 goroutines trigger repeatedly while files are flushed; both are judged at quiescence with the same exactly-once oracle. " +
 		"Non-trivial = a completed rollup job whose target agrees cell by cell (distinct by history, step, target type) or a crash image strictly inside the rollup (distinct by content hash).")
 	c.Assume("source tables are written with the real metricsdata flusher through the kv family of the real source data family, bypassing the write window (that is what allows old calendar positions); the flusher/reader pair is property C03's subject")
 	c.Assume("values are integers |v| < 2^30 so that sums over up to 7200 source slots x 64 files are exact in float64")
 	c.Assume("first/last fields: per source file the value of the earliest/latest source slot inside the target slot is acceptable; across files the merge order decides (flush order, not time)")
 	c.Assume("deciding runs use TZ=UTC; the Asia/Shanghai histories are reported in the evidence but never decide")
 	c.Assume("crash model = process kill (page cache survives); granularity = lindb's file-system seams; fsync is skipped by the seam wrapper")
-	c.Assume("jobs are awaited (wait group + busy flag) before the next step: concurrent flush/rollup schedules are not part of this property's quantifier; the store tick may start a compaction and a rollup of one family concurrently - the oracle accepts both orders only through the known-defect label")
+	c.Assume("retrigger kind: holding a goroutine right behind (or in front of) its read of the live rollup files is a schedule the Go runtime may produce (preemption between two statements); the gate never alters a returned value")
+	c.Assume("jobs are awaited (wait group + busy flag) before the oracle reads the targets; the store tick may start a compaction and a rollup of one family concurrently - the oracle accepts both orders only through the known-defect label")
 
 	var jobs []job
 	add := func(kind, tz string, n int) {
@@ -72,6 +77,9 @@ func main() {
 	add("shutdownlock", "UTC", c.Pick(3, 12))
 	add("direct", "Asia/Shanghai", c.Pick(28, 300))
 	add("ingest", "Asia/Shanghai", c.Pick(2, 20))
+	// appended behind the older kinds so that their indices (and with them their generated histories) stay what they were
+	add("retrigger", "UTC", c.Pick(32, 600))
+	add("storm", "UTC", c.Pick(12, 200))
 
 	scratch := c.Scratch()
 	// batches: crash histories alone, the others a few per child, one time zone per child
@@ -186,6 +194,16 @@ func main() {
 	}
 	if n := c.Counter("shutdown.engines_closed_during_a_rollup_job"); n < 10 {
 		c.Inconclusive("only %d engines were closed while a rollup job was in flight", n)
+	}
+	if n := c.Counter("retrigger.schedules_completed"); n < int64(c.Pick(20, 300)) {
+		c.Inconclusive("only %d directed schedules with further rollup triggers under a running job were completed", n)
+	}
+	if n, m := c.Counter("retrigger.triggers_refused_while_job_running")+c.Counter("retrigger.callers_held_after_reading_live_rollup_files_outside_the_running_job")+
+		c.Counter("retrigger.callers_held_before_reading_live_rollup_files_outside_the_running_job"), c.Counter("retrigger.triggers_issued_while_job_parked"); n != m || m < int64(c.Pick(20, 300)) {
+		c.Inconclusive("%d triggers were issued under a parked rollup job, %d of them were observed as refused or held", m, n)
+	}
+	if n := c.Counter("storm.steps_completed"); n < int64(c.Pick(10, 150)) {
+		c.Inconclusive("only %d steps with concurrent repeated rollup triggers were completed", n)
 	}
 	if n := c.Counter("reopens_with_pending_rollup_marks"); n < 2 {
 		c.Inconclusive("only %d reopens with pending rollup marks", n)
@@ -376,6 +394,18 @@ func genSpec(rnd *rand.Rand, j job, c *core.Ctx) *histSpec {
 			s.Src = 30 * msSecond
 		}
 	}
+	if j.Kind == "retrigger" {
+		s.Scenario = []string{"retrigger-first-rollup", "retrigger-second-rollup", "retrigger-sibling-rolled-up", "retrigger-twice"}[(j.Idx+int(c.Seed))%4]
+		if s.Src == msSecond {
+			s.Src = 30 * msSecond
+		}
+	}
+	if j.Kind == "storm" {
+		s.Scenario = []string{"storm-two-families", "storm-one-family"}[(j.Idx+int(c.Seed))%2]
+		if s.Src == msSecond {
+			s.Src = 10 * msSecond
+		}
+	}
 	if j.Kind == "ingest" {
 		s.Scenario = []string{"basic", "same-day-hours", "reopen-with-pending", "year-boundary"}[(j.Idx+int(c.Seed))%4]
 	}
@@ -521,6 +551,32 @@ func genSpec(rnd *rand.Rand, j job, c *core.Ctx) *histSpec {
 		spot(year, month, day, hh, "even-hour")
 		spot(year, month, day, hh+1, "odd-hour-of-the-same-2h-slot")
 		steps(fl(1), fl(0), "rollup", fl(1), "shutdown")
+	// retrigger histories: exactly one source family carries rollup marks when further triggers arrive under its running job
+	case "retrigger-first-rollup":
+		spot(year, month, day, 12, "filler-hour")
+		spot(year, month, day, []int{0, 23, 5}[rnd.Intn(3)], "hour")
+		nf(1, 3, 1)
+		steps("retrigger", "rollup", fl(1), "rollup", "reopen", "rollup")
+	case "retrigger-second-rollup":
+		spot(year, month, day, rnd.Intn(24), "hour")
+		steps(fl(0), "rollup")
+		nf(1, 2, 0)
+		steps("retrigger", "rollup", "tcompact", "reopen", "rollup")
+	case "retrigger-sibling-rolled-up":
+		hh := 2 + 2*rnd.Intn(11)
+		spot(year, month, day, hh, "even-hour")
+		spot(year, month, day, hh+1, "odd-hour-of-the-same-2h-slot")
+		steps(fl(1), fl(0), "rollup", fl(1), "retrigger", "rollup", fl(0), fl(0), "retrigger", "rollup")
+	case "retrigger-twice":
+		spot(year, month, day, rnd.Intn(24), "hour")
+		steps(fl(0), "retrigger", fl(0), "retrigger", "rollup", "reopen", fl(0), "retrigger", "rollup")
+	case "storm-two-families":
+		spot(year, month, day, rnd.Intn(24), "hour")
+		spot(year, month, day, rnd.Intn(24), "hour")
+		steps(fl(0), fl(1), "storm:0", "rollup", fl(0), "storm:1", "rollup", "reopen", "rollup")
+	case "storm-one-family":
+		spot(year, month, day, rnd.Intn(24), "hour")
+		steps(fl(0), "storm:0", "rollup", fl(0), fl(0), "storm:0", "storm:0", "rollup", "tcompact", "rollup")
 	case "crash-first-rollup":
 		spot(year, month, day, 12, "filler-hour")
 		spot(year, month, day, []int{0, 23}[rnd.Intn(2)], "edge-hour")
